@@ -29,8 +29,8 @@ CHECKS = {
   "All ordered pairs of a 90-filter pool (thorough 400) under + - * / on symbolic input (composite output vs composition of outputs vs reference recurrence vs numpoly/denpoly by cross-multiplication), scalars/unary/powers/delays per filter, all triples of a sub-pool for Cascade/ParallelFilter and the field laws, all expression trees of depth <=2 over {+,-,*,/,**n,f(g)} against exact rational functions, ==/!=/hash on all pairs of (filter, construction route), fractional-delay linearisation.",
   "Pool/depth bounds; dyadic coefficients wherever a signal is run; == is structural equality."),
  "C06": (True, "E1", "exploration", E1 + " with counting sources on every coefficient stream",
-  "Every placement of {absent, constant, 1, finite stream (len 0/2/5), periodic stream, constant stream} on b0..b2 and a0..a2 (60k shapes quick, 230k thorough) built through the dict constructor and Stream*z**-k expressions, run on symbolic input and compared with the time-varying recurrence on coefficient sequences, output length = shortest of input and coefficient streams, each coefficient source read exactly k times after k outputs; sums/products/scalings (incl. one stream feeding several product terms) vs element-by-element sequence arithmetic; constant streams vs constants. Products and quotients whose numerator and denominator share a time-varying factor must not cancel it.",
-  "Order <= 2; a Stream-bearing filter object is used once (copy() otherwise); degenerate 0/a0[n] shape excluded (see DESIGN.md)."),
+  "Every placement of {absent, constant, 1, finite stream (len 0/2/5), periodic stream, constant stream} on b0..b2 and a0..a2 (60k shapes quick, 230k thorough) built through the dict constructor and Stream*z**-k expressions, run on symbolic input and compared with the time-varying recurrence on coefficient sequences, output length = shortest of input and coefficient streams, each coefficient source read exactly k times after k outputs; sums/products/scalings (incl. one stream feeding several product terms) vs element-by-element sequence arithmetic; constant streams vs constants. Products and quotients whose numerator and denominator share a time-varying factor must not cancel it. Calling a filter reads no coefficient; one filter object applied to two consecutive blocks goes on with the coefficient values after those already read, with one read per output sample over both calls.",
+  "Order <= 2; degenerate 0/a0[n] shape excluded (see DESIGN.md); a Stream-bearing filter object is consumed by its use (called once, except in the blockwise kind)."),
  "C07": (True, "E1", "exploration", E1,
   "All ordered pairs of a pool of ~130 Laurent polynomials (thorough ~330; support -3..3, <=3 terms, coefficients in {1,-1,2,1/2,-3/2}, cancellation cases included) for + - *, commutativity, ==/!=/hash, evaluation homomorphism under all three schemes at 6 points, derivative linearity and product rule, composition; every polynomial alone for p-p, scalars, powers 0..3 (thorough 0..5), construction routes, order/values, diff/integrate; all triples of a sub-pool for associativity/distributivity; all 5460 Lagrange point sets (1..4 distinct abscissae) for both strategies. Exact Fractions throughout; no stored zero coefficient after any operation.",
   "Pool and exponent bounds; Laurent composition only with monomial inner polynomial; evaluation at 0 only without negative powers."),
